@@ -6,6 +6,7 @@ C08/C18.  Tight generators with a reference meaning live in the checks that need
 import glob
 import os
 import random
+import re
 
 from . import apm, pdp11_ref
 
@@ -162,6 +163,15 @@ def rand_program_text(rnd, nstmt=None, files=(), strength=0.3):
             lines.extend(apm.r_stmt(rand_stmt(rnd, files=files), style))
         except (ValueError, IndexError, KeyError):
             continue
+    # directive names without their dot, and a code block after a statement that takes none (or one more than it takes)
+    tweak = rnd.random() < 0.35
+    for i, line in enumerate(lines):
+        if not tweak:
+            break
+        if rnd.random() < 0.04:
+            lines[i] = line = re.sub(r"^(\s*(?:[a-z0-9_$.]+::?\s*)?)\.([a-z])", r"\1\2", line, flags=re.I)
+        if rnd.random() < 0.04 and ";" not in line and line.strip():
+            lines[i] = line + rnd.choice([" { nop }", " { .word 1 }", " {}", " {\n\tnop\n}", " { clr r0 } { nop }", " {"])
     # define most of the names somewhere, so that many inputs get past symbol resolution into layout and encoding
     if rnd.random() < 0.7:
         for nm in NAMES:
